@@ -472,7 +472,7 @@ StepBody(s, fn) ==
       s1 == Note(s0, <<"step", fn, s.cur.args, s.cur.kw, s.pausedF # "none", s.status>>)
       s1b == IF s.awt = <<>> THEN s1                     \* C10: what the step sees: the context, and which awaited items are done
              ELSE Note(s1, <<"ctx", s.ctx, [i \in 1..Len(s.awt) |-> s.awt[i].st # "pending"]>>)
-      s1c == [s1b EXCEPT !.awt = [i \in DOMAIN @ |-> IF \E j \in 1..Len(d.aws) : d.aws[j] = i      \* the step creates what it will await
+      s1c == [s1b EXCEPT !.awt = [i \in DOMAIN @ |-> IF \E j \in 1..Len(d.makes) : d.makes[j] = i  \* the step creates (launches) awaitables
                                                    THEN [@[i] EXCEPT !.made = TRUE] ELSE @[i]]]
       s2 == IF d.status # None THEN [s1c EXCEPT !.status = d.status] ELSE s1c
   IN Then(EmitAll(s2, d.emits), LAMBDA t : Hook(t, "step"))
